@@ -523,4 +523,15 @@ def lazyCmp (op rop : V → V → V) (stackV : List V → V) (hasDefault : Bool)
   | .unsupported => if hasDefault then .ok .default else .error .value
 
 
+/-! ### witnesses for the nested-lazy-stack finding -/
+
+/-- the item list `_items_list` gives of a tensordict `{a, n: lazy_stack([{x}, {x}])}`: the nested stack's leaves are
+listed member by member under `('n', i, 'x')` -/
+def nestedLazyItems (sa s0 s1 : V) : KV V :=
+  [(["a"], sa), (["n", idxKey 0, "x"], s0), (["n", idxKey 1, "x"], s1)]
+
+/-- the item list of a regular tensordict with the same content `{a, n: {x}}` -/
+def nestedDenseItems (oa ox : V) : KV V := [(["a"], oa), (["n", "x"], ox)]
+
+
 end TdVerif.C09
